@@ -309,11 +309,38 @@ fn alphabet(full: bool) -> Vec<TOp> {
 }
 
 // ------------------------------------------------------------------ E3: no lost update
+/// What one client thread does to the counter key `c`.
+#[derive(Clone, Copy, Debug, PartialEq)]
+pub enum Mode {
+    /// write_tx: get c, insert c+1, commit
+    Tx,
+    /// keyspace helper fetch_update(c -> c+1)
+    FetchUpdate,
+    /// keyspace helper update_fetch(c -> c+1)
+    UpdateFetch,
+    /// keyspace helper insert(c = 100)
+    Insert100,
+    /// keyspace helper remove(c)
+    Remove,
+    /// keyspace helper take(c)
+    Take,
+}
+
+impl Mode {
+    fn apply(self, v: Option<u32>) -> Option<u32> {
+        match self {
+            // an absent counter is restarted at 1000, so that "removed, then incremented" differs from a lost update
+            Mode::Tx | Mode::FetchUpdate | Mode::UpdateFetch => Some(v.map(|x| x + 1).unwrap_or(1000)),
+            Mode::Insert100 => Some(100),
+            Mode::Remove | Mode::Take => None,
+        }
+    }
+}
+
 pub struct CounterBody {
     pub name: &'static str,
     pub occ: bool,
-    pub threads: usize,
-    pub helper: bool,
+    pub modes: Vec<Mode>,
 }
 
 impl Body for CounterBody {
@@ -325,31 +352,43 @@ impl Body for CounterBody {
             Sw(SingleWriterTxDatabase, SingleWriterTxKeyspace),
             Occ(OptimisticTxDatabase, OptimisticTxKeyspace),
         }
-        let d = if self.occ {
-            let db = OptimisticTxDatabase::builder(dir).worker_threads_unchecked(0).open().expect("open");
-            let ks = db.keyspace("x", KeyspaceCreateOptions::default).expect("ks");
-            ks.insert("c", "0").expect("init");
-            D::Occ(db, ks)
-        } else {
-            let db = SingleWriterTxDatabase::builder(dir).worker_threads_unchecked(0).open().expect("open");
-            let ks = db.keyspace("x", KeyspaceCreateOptions::default).expect("ks");
-            ks.insert("c", "0").expect("init");
-            D::Sw(db, ks)
+        let occ = self.occ;
+        let open = |init: bool| {
+            if occ {
+                let db = OptimisticTxDatabase::builder(dir).worker_threads_unchecked(0).open().expect("open");
+                let ks = db.keyspace("x", KeyspaceCreateOptions::default).expect("ks");
+                if init {
+                    ks.insert("c", "0").expect("init");
+                }
+                D::Occ(db, ks)
+            } else {
+                let db = SingleWriterTxDatabase::builder(dir).worker_threads_unchecked(0).open().expect("open");
+                let ks = db.keyspace("x", KeyspaceCreateOptions::default).expect("ks");
+                if init {
+                    ks.insert("c", "0").expect("init");
+                }
+                D::Sw(db, ks)
+            }
         };
-        let n = self.threads;
+        // "[reopened]": the transactions run on a recovered database
+        let mut d = open(true);
+        if self.name.contains("[reopened]") {
+            drop(d);
+            d = open(false);
+        }
+        let n = self.modes.len();
         let done = Arc::new(AtomicUsize::new(0));
         let in_cs = Arc::new(AtomicUsize::new(0));
         let problems: Arc<Mutex<Vec<String>>> = Arc::new(Mutex::new(vec![]));
-        let committed = Arc::new(AtomicUsize::new(0));
+        let committed: Arc<Mutex<Vec<Mode>>> = Arc::new(Mutex::new(vec![]));
         let fin: Arc<Mutex<Option<String>>> = Arc::new(Mutex::new(None));
         let mut handles = vec![];
         const NAMES: [&str; 3] = ["inc0", "inc1", "inc2"];
-        let helper = self.helper;
         let inc = |v: Option<&fjall::UserValue>| -> Option<fjall::UserValue> {
-            let cur: u32 = v.and_then(|x| std::str::from_utf8(x).ok().and_then(|s| s.parse().ok())).unwrap_or(0);
-            Some(format!("{}", cur + 1).as_bytes().into())
+            let cur: Option<u32> = v.and_then(|x| std::str::from_utf8(x).ok().and_then(|s| s.parse().ok()));
+            Some(format!("{}", cur.map(|c| c + 1).unwrap_or(1000)).as_bytes().into())
         };
-        for i in 0..n {
+        for (i, mode) in self.modes.iter().copied().enumerate() {
             let done = done.clone();
             let in_cs = in_cs.clone();
             let problems = problems.clone();
@@ -359,29 +398,29 @@ impl Body for CounterBody {
                     let (db, ks) = (db.clone(), ks.clone());
                     handles.push(spawn_client(NAMES[i], move || {
                         client_point("client.call");
-                        if helper {
-                            match ks.fetch_update("c", inc) {
-                                Ok(_) => {
-                                    committed.fetch_add(1, Ordering::SeqCst);
+                        let r: Result<bool, String> = match mode {
+                            Mode::Tx => {
+                                let mut tx = db.write_tx();
+                                if in_cs.fetch_add(1, Ordering::SeqCst) != 0 {
+                                    problems.lock().unwrap().push("two single-writer transactions overlap".into());
                                 }
-                                Err(e) => problems.lock().unwrap().push(format!("{e:?}")),
+                                client_point("client.in_tx");
+                                let cur: Option<u32> = tx.get(&ks, "c").ok().flatten().and_then(|x| std::str::from_utf8(&x).ok().and_then(|s| s.parse().ok()));
+                                client_point("client.in_tx");
+                                tx.insert(&ks, "c", format!("{}", cur.map(|c| c + 1).unwrap_or(1000)));
+                                in_cs.fetch_sub(1, Ordering::SeqCst);
+                                tx.commit().map(|()| true).map_err(|e| format!("{e:?}"))
                             }
-                        } else {
-                            let mut tx = db.write_tx();
-                            if in_cs.fetch_add(1, Ordering::SeqCst) != 0 {
-                                problems.lock().unwrap().push("two single-writer transactions overlap".into());
-                            }
-                            client_point("client.in_tx");
-                            let cur: u32 = tx.get(&ks, "c").ok().flatten().and_then(|x| std::str::from_utf8(&x).ok().and_then(|s| s.parse().ok())).unwrap_or(0);
-                            client_point("client.in_tx");
-                            tx.insert(&ks, "c", format!("{}", cur + 1));
-                            in_cs.fetch_sub(1, Ordering::SeqCst);
-                            match tx.commit() {
-                                Ok(()) => {
-                                    committed.fetch_add(1, Ordering::SeqCst);
-                                }
-                                Err(e) => problems.lock().unwrap().push(format!("{e:?}")),
-                            }
+                            Mode::FetchUpdate => ks.fetch_update("c", inc).map(|_| true).map_err(|e| format!("{e:?}")),
+                            Mode::UpdateFetch => ks.update_fetch("c", inc).map(|_| true).map_err(|e| format!("{e:?}")),
+                            Mode::Insert100 => ks.insert("c", "100").map(|_| true).map_err(|e| format!("{e:?}")),
+                            Mode::Remove => ks.remove("c").map(|_| true).map_err(|e| format!("{e:?}")),
+                            Mode::Take => ks.take("c").map(|_| true).map_err(|e| format!("{e:?}")),
+                        };
+                        match r {
+                            Ok(true) => committed.lock().unwrap().push(mode),
+                            Ok(false) => {}
+                            Err(e) => problems.lock().unwrap().push(e),
                         }
                         drop(ks);
                         drop(db);
@@ -392,25 +431,28 @@ impl Body for CounterBody {
                     let (db, ks) = (db.clone(), ks.clone());
                     handles.push(spawn_client(NAMES[i], move || {
                         client_point("client.call");
-                        if helper {
-                            match ks.fetch_update("c", inc) {
-                                Ok(_) => {
-                                    committed.fetch_add(1, Ordering::SeqCst);
+                        let r: Result<bool, String> = match mode {
+                            Mode::Tx => {
+                                let mut tx = db.write_tx().expect("tx");
+                                let cur: Option<u32> = tx.get(&ks, "c").ok().flatten().and_then(|x| std::str::from_utf8(&x).ok().and_then(|s| s.parse().ok()));
+                                client_point("client.in_tx");
+                                tx.insert(&ks, "c", format!("{}", cur.map(|c| c + 1).unwrap_or(1000)));
+                                match tx.commit() {
+                                    Ok(Ok(())) => Ok(true),
+                                    Ok(Err(_)) => Ok(false),
+                                    Err(e) => Err(format!("{e:?}")),
                                 }
-                                Err(e) => problems.lock().unwrap().push(format!("{e:?}")),
                             }
-                        } else {
-                            let mut tx = db.write_tx().expect("tx");
-                            let cur: u32 = tx.get(&ks, "c").ok().flatten().and_then(|x| std::str::from_utf8(&x).ok().and_then(|s| s.parse().ok())).unwrap_or(0);
-                            client_point("client.in_tx");
-                            tx.insert(&ks, "c", format!("{}", cur + 1));
-                            match tx.commit() {
-                                Ok(Ok(())) => {
-                                    committed.fetch_add(1, Ordering::SeqCst);
-                                }
-                                Ok(Err(_)) => {}
-                                Err(e) => problems.lock().unwrap().push(format!("{e:?}")),
-                            }
+                            Mode::FetchUpdate => ks.fetch_update("c", inc).map(|_| true).map_err(|e| format!("{e:?}")),
+                            Mode::UpdateFetch => ks.update_fetch("c", inc).map(|_| true).map_err(|e| format!("{e:?}")),
+                            Mode::Insert100 => ks.insert("c", "100").map(|_| true).map_err(|e| format!("{e:?}")),
+                            Mode::Remove => ks.remove("c").map(|_| true).map_err(|e| format!("{e:?}")),
+                            Mode::Take => ks.take("c").map(|_| true).map_err(|e| format!("{e:?}")),
+                        };
+                        match r {
+                            Ok(true) => committed.lock().unwrap().push(mode),
+                            Ok(false) => {}
+                            Err(e) => problems.lock().unwrap().push(e),
                         }
                         drop(ks);
                         drop(db);
@@ -428,7 +470,7 @@ impl Body for CounterBody {
                     D::Sw(_, ks) => ks.get("c"),
                     D::Occ(_, ks) => ks.get("c"),
                 };
-                *fin.lock().unwrap() = v.ok().flatten().map(|x| String::from_utf8_lossy(&x).into_owned());
+                *fin.lock().unwrap() = Some(v.ok().flatten().map(|x| String::from_utf8_lossy(&x).into_owned()).unwrap_or_else(|| "-".into()));
                 drop(d);
             }));
         }
@@ -437,28 +479,68 @@ impl Body for CounterBody {
             if !p.is_empty() {
                 return Err(Violation::new("tx.problem", p.join(" | ")));
             }
-            let c = committed.load(Ordering::SeqCst);
+            let c = committed.lock().unwrap().clone();
             let f = fin.lock().unwrap().clone().unwrap_or_default();
-            if f != format!("{c}") {
-                return Err(Violation::new("lost_update", format!("{c} increments were committed but the counter reads {f}")));
+            // some serial order of the committed operations must produce the final value
+            let mut idx: Vec<usize> = (0..c.len()).collect();
+            let mut ok = false;
+            permute_idx(&mut idx, 0, &mut |order: &[usize]| {
+                let mut v = Some(0u32);
+                for i in order {
+                    v = c[*i].apply(v);
+                }
+                if v.map(|x| x.to_string()).unwrap_or_else(|| "-".into()) == f {
+                    ok = true;
+                }
+            });
+            if !ok {
+                return Err(Violation::new("lost_update", format!("committed operations {c:?} (starting from c=0) cannot produce the final value {f} in any serial order")));
             }
-            Ok(format!("committed={c}"))
+            Ok(format!("committed={} final={f}", c.len()))
         });
         Launched { handles, judge }
     }
 }
 
+fn permute_idx(v: &mut Vec<usize>, k: usize, f: &mut dyn FnMut(&[usize])) {
+    if k == v.len() {
+        f(v);
+        return;
+    }
+    for i in k..v.len() {
+        v.swap(k, i);
+        permute_idx(v, k + 1, f);
+        v.swap(k, i);
+    }
+}
+
 pub fn bodies(tier: &str) -> Vec<BodySpec> {
+    use Mode::*;
     let q = tier == "quick";
     let b = |body: CounterBody, bound: usize, secs: f64| BodySpec { body: Arc::new(body), bound, secs };
     let mut v = vec![
-        b(CounterBody { name: "single-writer: 2 x (tx get insert commit)", occ: false, threads: 2, helper: false }, if q { 2 } else { 3 }, if q { 5.0 } else { 200.0 }),
-        b(CounterBody { name: "single-writer: 2 x fetch_update helper", occ: false, threads: 2, helper: true }, if q { 2 } else { 3 }, if q { 4.0 } else { 200.0 }),
-        b(CounterBody { name: "optimistic: 2 x fetch_update helper (retry loop)", occ: true, threads: 2, helper: true }, if q { 1 } else { 3 }, if q { 5.0 } else { 300.0 }),
+        b(CounterBody { name: "single-writer: 2 x (tx get insert commit)", occ: false, modes: vec![Tx, Tx] }, if q { 2 } else { 3 }, if q { 4.0 } else { 200.0 }),
+        b(CounterBody { name: "single-writer: 2 x fetch_update helper", occ: false, modes: vec![FetchUpdate, FetchUpdate] }, if q { 2 } else { 3 }, if q { 3.0 } else { 200.0 }),
+        b(CounterBody { name: "optimistic: 2 x fetch_update helper (retry loop)", occ: true, modes: vec![FetchUpdate, FetchUpdate] }, if q { 1 } else { 3 }, if q { 4.0 } else { 300.0 }),
+        b(CounterBody { name: "single-writer: tx || insert helper", occ: false, modes: vec![Tx, Insert100] }, if q { 2 } else { 3 }, if q { 2.5 } else { 100.0 }),
+        b(CounterBody { name: "single-writer: tx || remove helper", occ: false, modes: vec![Tx, Remove] }, if q { 2 } else { 3 }, if q { 2.5 } else { 100.0 }),
+        b(CounterBody { name: "single-writer: tx || take helper [reopened]", occ: false, modes: vec![Tx, Take] }, if q { 2 } else { 3 }, if q { 2.5 } else { 100.0 }),
+        b(CounterBody { name: "single-writer: tx || update_fetch helper", occ: false, modes: vec![Tx, UpdateFetch] }, if q { 2 } else { 3 }, if q { 2.5 } else { 100.0 }),
+        b(CounterBody { name: "optimistic: tx || insert helper [reopened]", occ: true, modes: vec![Tx, Insert100] }, if q { 2 } else { 3 }, if q { 2.5 } else { 100.0 }),
+        b(CounterBody { name: "optimistic: tx || remove helper", occ: true, modes: vec![Tx, Remove] }, if q { 2 } else { 3 }, if q { 2.5 } else { 100.0 }),
     ];
+    // "until commit nothing is visible outside, commit applies all at once" on a recovered database
+    {
+        use crate::props::c06::{Act, Finals, Kind, VisBody};
+        let init = vec![("x", "a", "0"), ("y", "b", "0")];
+        let reader = vec![Act::SnapRead(vec![("x", "a"), ("y", "b")])];
+        v.push(BodySpec { body: Arc::new(VisBody { name: "sw-tx(x.a,y.b) || read_tx [reopened]", kind: Kind::Sw, workers: 0, keyspaces: vec!["x", "y"], initial: init.clone(), prerotate: vec![], threads: vec![vec![Act::Tx(vec![("x", "a", "1"), ("y", "b", "1")])], reader.clone()], finals: Finals::None }), bound: 2, secs: if q { 2.5 } else { 60.0 } });
+        v.push(BodySpec { body: Arc::new(VisBody { name: "occ-tx(x.a,y.b) || read_tx [reopened]", kind: Kind::Occ, workers: 0, keyspaces: vec!["x", "y"], initial: init, prerotate: vec![], threads: vec![vec![Act::Tx(vec![("x", "a", "1"), ("y", "b", "1")])], reader], finals: Finals::None }), bound: 2, secs: if q { 2.5 } else { 60.0 } });
+    }
     if !q {
-        v.push(b(CounterBody { name: "single-writer: 3 x (tx get insert commit)", occ: false, threads: 3, helper: false }, 2, 300.0));
-        v.push(b(CounterBody { name: "optimistic: 2 x (tx get insert commit)", occ: true, threads: 2, helper: false }, 3, 300.0));
+        v.push(b(CounterBody { name: "single-writer: 3 x (tx get insert commit)", occ: false, modes: vec![Tx, Tx, Tx] }, 2, 300.0));
+        v.push(b(CounterBody { name: "optimistic: 2 x (tx get insert commit)", occ: true, modes: vec![Tx, Tx] }, 3, 300.0));
+        v.push(b(CounterBody { name: "optimistic: tx || update_fetch helper || remove helper", occ: true, modes: vec![Tx, UpdateFetch, Remove] }, 2, 300.0));
     }
     v
 }
